@@ -1,8 +1,9 @@
 (* Extraction of the C18 models for the correspondence check. ExtrOcamlBasic only. *)
 From V.lib Require Import Base.
-From V.c18 Require Import C18Model C18EntryModel.
+From V.c18 Require Import C18Model C18EntryModel C18HistModel.
 Require Import ExtrOcamlBasic.
 Separate Extraction
   asc adts encode_asc decode_asc canonical asc_roundtrip_ok
   new_adts adts_frequency encode_adts decode_adts adts_canonical no_sync_in first_sync adts_roundtrip_ok
-  set_aac_descriptor decode_entry entry_asc decode_entry_sr entry_asc_sr.
+  set_aac_descriptor set_aac_asc decode_entry entry_asc decode_entry_sr entry_asc_sr
+  hrun decode_asc_stream encode_asc_stream decode_adts_stream encode_adts_stream.
